@@ -424,6 +424,7 @@ type Server struct {
 	log      []Event
 	notes    []*Notification
 	hook     func(Event) Fault
+	onCommit func(db *DB) // called (under the server lock) whenever the committed state changes
 	closed   bool
 }
 
@@ -632,6 +633,33 @@ func (s *Server) Indexes(name string) []Index {
 	return out
 }
 
+// SetCommitHook installs a function that sees EVERY committed state another session could observe:
+// it runs after each COMMIT and after each statement executed outside a transaction block that
+// changed something. It runs under the server lock: use only the *DB accessors.
+func (s *Server) SetCommitHook(h func(db *DB)) {
+	s.mu.Lock()
+	defer s.mu.Unlock()
+	s.onCommit = h
+}
+
+// TableNames / RowsOf: read access to a state handed to a commit hook (or a snapshot)
+func (db *DB) TableNames() []string { return db.names() }
+
+func (db *DB) RowsOf(name string) []map[string]Value {
+	t := db.tables[name]
+	if t == nil {
+		return nil
+	}
+	out := make([]map[string]Value, len(t.rows))
+	for i, r := range t.rows {
+		out[i] = map[string]Value{}
+		for j, c := range t.cols {
+			out[i][c.Name] = cloneValue(r.v[j])
+		}
+	}
+	return out
+}
+
 // Snapshot returns a copy of the committed state.
 func (s *Server) Snapshot() *DB {
 	s.mu.Lock()
@@ -792,6 +820,9 @@ func (c *conn) exec(st *stmt, args []Value, data [][]Value) (*result, *pgErr) {
 			n.Committed = true
 		}
 		s.db, c.tx, c.effs, c.notes = db, 0, nil, nil
+		if s.onCommit != nil {
+			s.onCommit(s.db)
+		}
 		return &result{tag: "COMMIT"}, nil
 	}
 	if st.err != nil {
@@ -813,6 +844,9 @@ func (c *conn) exec(st *stmt, args []Value, data [][]Value) (*result, *pgErr) {
 		c.effs, c.notes = append(c.effs, r.effs...), append(c.notes, r.notes...)
 	} else if len(r.effs) > 0 {
 		s.db = r.db // r.db == committed clone + this statement's effects
+		if s.onCommit != nil {
+			s.onCommit(s.db)
+		}
 	}
 	return res, nil
 }
